@@ -18,9 +18,9 @@ type c01Case struct {
 }
 
 func genC01(t *rapid.T) *c01Case {
-	cfg := gen.ImgCfg{MaxSide: 40, BigChance: 4, BigSide: 200, ThinPermille: 6}
+	cfg := gen.ImgCfg{MaxSide: 40, BigChance: 4, BigSide: 200, ThinPermille: 6, LargePermille: 4}
 	if tierThorough() {
-		cfg = gen.ImgCfg{MaxSide: 72, BigChance: 3, BigSide: 420, ThinPermille: 6}
+		cfg = gen.ImgCfg{MaxSide: 72, BigChance: 3, BigSide: 420, ThinPermille: 6, LargePermille: 4}
 	}
 	c := &c01Case{Img: gen.DrawImg(t, cfg), Opts: gen.DrawLosslessOpts(t)}
 	if rapid.IntRange(0, 3).Draw(t, "withMeta") == 0 {
